@@ -20,7 +20,7 @@ pub fn check(case: &ProgCase, info: &mut CaseInfo) -> Result<(), String> {
                 return Ok(());
             }
         };
-        check_framing(&obs, true).map_err(|e| format!("{}: {}", op_name(op), e))?;
+        check_framing(&obs, !matches!(op, crate::types::DrawOp::SetPixels { .. })).map_err(|e| format!("{}: {}", op_name(op), e))?;
         groups += obs.bursts.len();
         if obs.bursts.len() > 1 {
             info.label("multi-window-call");
@@ -50,7 +50,7 @@ fn sig(c: &ProgCase, reason: &str) -> String {
 pub fn run(ctx: &Ctx) -> Report {
     let mut rep = Report::new("C08", "exploration");
     rep.assumptions = vec![
-        "framebuffer extent under MV is (height, width); set_pixels is only called inside its documented contract (n <= window area)".into(),
+        "framebuffer extent under MV is (height, width); set_pixels with surplus colours wraps by documentation and is exempt from the no-overrun rule (everything else about its framing is judged)".into(),
     ];
     let mut sec = Section::new(
         &format!("in-bounds-programs[{}]", ctx.variant),
